@@ -54,6 +54,8 @@ type Result struct {
 	// (the ndjson Zipkin decoder before fix abfd578 stored such rows); 2 payload types the reader does not know;
 	// 3 payloads that are neither JSON nor a protobuf span
 	TraceShape int `json:"trace_shape,omitempty"`
+	// NullAtRow k>0: the k-th row (1-based) of a single-column statement (label names, values, tags) is NULL
+	NullAtRow int `json:"null_at_row,omitempty"`
 }
 
 // Row is one served row in harness terms.
@@ -649,6 +651,9 @@ func (r *rows) Next(dest []driver.Value) error {
 	row := r.data[r.pos]
 	for i, c := range r.cols {
 		dest[i] = ValueFor(c, r.sql, row, r.pos, len(r.cols), &r.res)
+	}
+	if len(r.cols) == 1 && r.res.NullAtRow > 0 && r.pos == r.res.NullAtRow-1 {
+		dest[0] = nil
 	}
 	if len(r.cols) == 1 && len(r.st.Strings) < 5000 {
 		if sv, ok := dest[0].(string); ok {
